@@ -60,6 +60,23 @@ let bits_of_sexp_string (s : string) : bool list =
   | L [A "bits"; A b] -> bits_of_string b
   | _ -> failwith "bad bits"
 
+let field_of (e : sexp) : M.field =
+  match e with
+  | L [A "f"; t; A ss; A sd; A w; A na] ->
+    { M.f_ty = ty_of_sexp t; M.f_skip_ser = (ss = "1"); M.f_skip_de = (sd = "1"); M.f_with = (w = "1");
+      M.f_nattrs = nat_of_int (int_of_string na) }
+  | _ -> failwith "bad field"
+let defn_of (s : string) : M.defn =
+  match parse_sexp s with
+  | L (A "struct" :: A ea :: A b :: A named :: fs) ->
+    let b = match b with "container" -> M.SContainer | "transparent" -> M.STransparent | _ -> M.SOther in
+    M.DStruct (ea = "1", b, named = "1", List.map field_of fs)
+  | L (A "enum" :: A sa :: A b :: vs) ->
+    let b = match b with "union" -> M.EUnion | "transparent" -> M.ETransparent | "tag" -> M.ETag
+                         | "absent" -> M.EAbsent | _ -> M.EOther in
+    M.DEnum (sa = "1", b, List.map (fun v -> match v with L (A "v" :: ts) -> List.map ty_of_sexp ts | _ -> failwith "bad variant") vs)
+  | _ -> failwith "bad defn"
+
 let eval (fields : string list) (fail : string -> string -> unit) (bump : string -> unit) (op : string) : unit =
   match fields with
   | ["bfhist"; fl; ops; obs] ->
@@ -191,4 +208,21 @@ let eval (fields : string list) (fail : string -> string -> unit) (bump : string
        if not ok then fail "oracle.C20" "generated value violates the length rule";
        if rt <> "rt" then fail "oracle.C20" "generated value does not round-trip through SSZ"
      | _ -> ())
+  | ["derive"; d; ety; dty] ->
+    bump "derive.programs";
+    (match M.derive (defn_of d) with
+     | Some (e, r) ->
+       if e <> ty_of_sexp (parse_sexp ety) then fail "corr.derive" "encode-side schema of the model differs from the generator's";
+       if r <> ty_of_sexp (parse_sexp dty) then fail "corr.derive" "decode-side schema of the model differs from the generator's"
+     | None -> fail "corr.derive" "the model rejects a definition the compiler accepted")
+  | ["derivecf"; d; accepted; expected; name; why] ->
+    bump ("derive.cf." ^ accepted);
+    let model_accepts = (M.derive (defn_of d) <> None) in
+    if model_accepts <> (accepted = "1") then
+      fail "corr.derive.reject" (Printf.sprintf "%s: model %s, rustc %s" name (if model_accepts then "accepts" else "rejects") (if accepted = "1" then "accepts" else "rejects"));
+    if accepted <> expected then
+      fail "oracle.C08" (Printf.sprintf "%s: the definition must be %s at compile time but rustc %s it" name
+                           (if expected = "1" then "accepted" else "rejected") (if accepted = "1" then "accepted" else "rejected"));
+    if accepted = "0" && why <> "macro-panic" then
+      fail "driver.error" (name ^ ": the compile-fail crate fails for a reason other than the derive macro")
   | _ -> fail "driver.error" ("unknown op " ^ op)
